@@ -59,8 +59,11 @@ def run_case(case):
     p1, f1 = run(q1, c1)
     p2, f2 = run(q2, c2)
     p3, f3 = run(a * q1 + b * q2, a * c1 + b * c2)
-    for nm, x3, x1, x2 in (("conc", p3, p1, p2), ("flx", f3, f1, f2)):
-        scale = abs(a) * float(np.max(np.abs(x1))) + abs(b) * float(np.max(np.abs(x2))) or 1.0
+    s1 = solve.surface_scales(St, q1, precision=prec, analytic=analytic, meas_pt=mp)
+    s2 = solve.surface_scales(St, q2, precision=prec, analytic=analytic, meas_pt=mp)
+    counters["solver_calls"] += 2
+    for j, (nm, x3, x1, x2) in enumerate((("conc", p3, p1, p2), ("flx", f3, f1, f2))):
+        scale = abs(a) * max(float(np.max(np.abs(x1))), s1[j]) + abs(b) * max(float(np.max(np.abs(x2))), s2[j]) or 1.0
         e = float(np.max(np.abs(x3 - (a * x1 + b * x2)))) / scale
         resid[f"superposition_{nm}_{prec}"] = e
         if e > tol:
